@@ -25,7 +25,9 @@ def jobs_for(tier):
                              exclude={'manyadd', 'real', 'heavy'})
         tpls = [t for t in tpls if t['id'] not in ('combo-seqof-seq', 'combo-ext-nest')]
     else:
-        tpls = [t for t in corpus.TEMPLATES if not (t['feats'] & {'real'})]
+        tpls = [t for t in corpus.TEMPLATES if not (t['feats'] & {'real'})] + corpus.generated(exclude={'real'})
+    if tier == 'quick':
+        tpls = tpls + corpus.generated(quick=True, exclude={'real'})
     for t in tpls:
         jobs.append(dict(id='%s/oer' % t['id'], template=t['id'], codec='oer', tier=tier, numeric_enums=False))
     return jobs
